@@ -7,7 +7,7 @@ ASSUMPTIONS = [
     'Python round(x,4) is modelled as round-half-even on the exact rational value; the real code rounds the float result, so a case whose exact value lies within 1e-9 of a rounding tie is counted as float_tie and not compared',
     'grades travel as floats in the real code (grade*credit); compared with the exact model value within 1e-12',
     'the percentage text uses Decimal(credit*100).quantize(.1) on a float; compared exactly except at quantisation ties (credit*1000 half-integral)',
-    'known finding K2 (minimum_credit with more than 4 decimals) is excluded from the grid and announced separately',
+    'minimum_credit values with more than 4 decimals (former finding K2, fixed as F14) are probed separately from the exact grid',
 ]
 EVIDENCE = {
     'rule': 'schedule cases = (schedule kind, parameters, attempt); apply cases = (grader shape single/list, schedule, message flag, attempt incl. None/0/negative, student input); '
@@ -347,9 +347,13 @@ def check_debug_note(ctx):
 
 def known_probe(ctx):
     from mitxgraders import LinearCredit
-    v = LinearCredit(minimum_credit=0.33333)(10)
-    if v < 0.33333:
-        ctx.known('K2', 'LinearCredit(minimum_credit=0.33333)(10) = %r' % v)
+    # former known finding K2, fixed in /repo (F14): the schedule never goes below a minimum with more than four decimals either
+    for mc in (0.33333, 0.123456, 0.99999, 0.00001):
+        for n in range(1, 14):
+            v = LinearCredit(minimum_credit=mc)(n)
+            ctx.contract_checks += 1
+            if not (mc <= v <= 1):
+                ctx.violation('LinearCredit(minimum_credit=%r)(%d) = %r is outside [minimum_credit, 1]' % (mc, n, v), {'part': 'minimum', 'minimum_credit': mc, 'attempt': n}, impl=v)
 
 
 def run(ctx):
